@@ -113,19 +113,16 @@ func (s *Store) Canon(t *Term) *Term {
 		if i == len(atoms) {
 			return s.Bool(s.evalBool(t, asg, map[*Term]bool{}))
 		}
-		var hi *Term
-		feasible := true
-		for _, j := range conf[i] {
-			if asg[atoms[j]] {
-				feasible = false // x == c1 and x == c2 cannot both hold
-			}
-		}
-		if feasible {
+		var hi, lo *Term
+		okT, okF := conf.feasible(i, atoms, asg) // x == c1 and x == c2 cannot both hold, x < y excludes y < x, ...
+		if okT {
 			asg[atoms[i]] = true
 			hi = build(i + 1)
 		}
-		asg[atoms[i]] = false
-		lo := build(i + 1)
+		if okF {
+			asg[atoms[i]] = false
+			lo = build(i + 1)
+		}
 		if hi == nil {
 			return lo
 		}
@@ -166,40 +163,176 @@ func (s *Store) Implies(p, q *Term) bool {
 			}
 			return true
 		}
-		feasible := true
-		for _, j := range conf[i] {
-			if asg[atoms[j]] {
-				feasible = false
-			}
-		}
-		if feasible {
+		okT, okF := conf.feasible(i, atoms, asg)
+		if okT {
 			asg[atoms[i]] = true
 			if !rec(i + 1) {
 				return false
 			}
 		}
-		asg[atoms[i]] = false
-		return rec(i + 1)
+		if okF {
+			asg[atoms[i]] = false
+			return rec(i + 1)
+		}
+		return true
 	}
 	return rec(0)
 }
 
-// eqConflicts: for each atom i, the earlier atoms j such that atoms i and j are equalities x == c1, x == c2 of the
-// same integer term with different constants (at most one of them holds). The only arithmetic fact the
-// propositional reasoning knows.
-func (s *Store) eqConflicts(atoms []*Term) [][]int {
-	conf := make([][]int, len(atoms))
-	for i, a := range atoms {
-		if a.Op != "eq0" {
-			continue
-		}
-		for j := 0; j < i; j++ {
-			b := atoms[j]
-			if b.Op != "eq0" {
-				continue
+// conflict: atoms[j] == pj together with the current atom == pi is impossible.
+type conflict struct {
+	j      int
+	pj, pi bool
+}
+
+type conflicts [][]conflict
+
+func (c conflicts) feasible(i int, atoms []*Term, asg map[*Term]bool) (okT, okF bool) {
+	okT, okF = true, true
+	for _, k := range c[i] {
+		if asg[atoms[k.j]] == k.pj {
+			if k.pi {
+				okT = false
+			} else {
+				okF = false
 			}
-			if d, ok := s.Sub(a.Args[0], b.Args[0]).IntVal(); ok && d != 0 {
-				conf[i] = append(conf[i], j)
+		}
+	}
+	return
+}
+
+// eqConflicts: the order facts the propositional reasoning knows, as pairwise exclusions between an atom i and an
+// earlier atom j:
+//   - integer atoms over the same term up to a constant: x == c1 excludes x == c2; x <= p implies x <= q for p <= q;
+//     x <= p excludes x >= q for q > p and one of them holds for q <= p+1; x == c implies / excludes x <= p;
+//   - float atoms over the same pair of operands (all of these hold with NaN operands too, every comparison with NaN
+//     being false): a < b excludes b < a, b <= a and a == b; a < b implies a <= b; a == b implies a <= b and b <= a.
+func (s *Store) eqConflicts(atoms []*Term) conflicts {
+	conf := make(conflicts, len(atoms))
+	add := func(i, j int, pj, pi bool) { conf[i] = append(conf[i], conflict{j, pj, pi}) }
+	for i, a := range atoms {
+		switch a.Op {
+		case "eq0", "le0":
+			for j := 0; j < i; j++ {
+				b := atoms[j]
+				if b.Op != "eq0" && b.Op != "le0" {
+					continue
+				}
+				ta, tb := a.Args[0], b.Args[0]
+				if ta.Ty != TInt || tb.Ty != TInt {
+					continue
+				}
+				d, same := s.Sub(ta, tb).IntVal()  // ta = tb + d
+				sm, opp := s.Add(ta, tb).IntVal() // ta = sm - tb
+				switch {
+				case a.Op == "eq0" && b.Op == "eq0":
+					if (same && d != 0) || (opp && sm != 0) {
+						add(i, j, true, true)
+					}
+				case a.Op == "le0" && b.Op == "le0":
+					if same {
+						// a: tb <= -d, b: tb <= 0
+						if d >= 0 {
+							add(i, j, false, true) // a implies b
+						}
+						if d <= 0 {
+							add(i, j, true, false) // b implies a
+						}
+					} else if opp {
+						// a: tb >= sm, b: tb <= 0
+						if sm > 0 {
+							add(i, j, true, true)
+						}
+						if sm <= 1 {
+							add(i, j, false, false)
+						}
+					}
+				default:
+					// one equality e (te == 0), one inequality l (tl <= 0)
+					var holds bool // the equality implies the inequality
+					if a.Op == "eq0" {
+						// te = ta, tl = tb
+						if same { // tb = -d at the equality
+							holds = -d <= 0
+						} else if opp { // tb = sm
+							holds = sm <= 0
+						} else {
+							continue
+						}
+						if holds {
+							add(i, j, false, true) // le false, eq true impossible
+						} else {
+							add(i, j, true, true)
+						}
+					} else {
+						// te = tb, tl = ta
+						if same { // ta = d at the equality
+							holds = d <= 0
+						} else if opp { // ta = sm
+							holds = sm <= 0
+						} else {
+							continue
+						}
+						if holds {
+							add(i, j, true, false) // eq true, le false impossible
+						} else {
+							add(i, j, true, true)
+						}
+					}
+				}
+			}
+		case "flt", "fle", "feq":
+			for j := 0; j < i; j++ {
+				b := atoms[j]
+				if b.Op != "flt" && b.Op != "fle" && b.Op != "feq" {
+					continue
+				}
+				sameDir := a.Args[0] == b.Args[0] && a.Args[1] == b.Args[1]
+				revDir := a.Args[0] == b.Args[1] && a.Args[1] == b.Args[0]
+				if !sameDir && !revDir {
+					continue
+				}
+				// implies(p, q): p true and q false impossible; excl(p, q): both true impossible; in terms of (i, j)
+				type rel int
+				const (
+					none rel = iota
+					aImpB
+					bImpA
+					excl
+				)
+				r := none
+				switch a.Op + "," + b.Op {
+				case "flt,flt":
+					if revDir {
+						r = excl
+					}
+				case "flt,fle":
+					if sameDir {
+						r = aImpB
+					} else {
+						r = excl
+					}
+				case "fle,flt":
+					if sameDir {
+						r = bImpA
+					} else {
+						r = excl
+					}
+				case "flt,feq", "feq,flt":
+					r = excl
+				case "feq,fle":
+					r = aImpB
+				case "fle,feq":
+					r = bImpA
+				}
+				switch r {
+				case aImpB:
+					add(i, j, false, true)
+				case bImpA:
+					add(i, j, true, false)
+				case excl:
+					add(i, j, true, true)
+				}
 			}
 		}
 	}
